@@ -409,6 +409,14 @@ fn collect_fold_elements<'query, Vertex: Clone + Debug + 'query>(
     }
 }
 
+/// Whether the component, or any fold nested inside it, produces any outputs.
+fn component_has_outputs(component: &IRQueryComponent) -> bool {
+    !component.outputs.is_empty()
+        || component.folds.values().any(|fold| {
+            !fold.fold_specific_outputs.is_empty() || component_has_outputs(&fold.component)
+        })
+}
+
 #[allow(unused_variables)]
 fn compute_fold<'query, AdapterT: Adapter<'query> + 'query>(
     adapter: Arc<AdapterT>,
@@ -503,33 +511,50 @@ fn compute_fold<'query, AdapterT: Adapter<'query> + 'query>(
     //
     // For example, if `@filter(op: ">", value: ["$ten"])` is our only filter on the count
     // of the fold, we can stop computing the rest of the fold after seeing we have 11 elements.
-    let min_fold_size =
-        if let Some(min_fold_size) = get_min_fold_count_limit(carrier, fold.as_ref()) {
-            let no_outputs_in_fold = fold.component.outputs.is_empty();
-            let has_output_on_fold_count =
-                fold.fold_specific_outputs.values().any(|x| *x == FoldSpecificFieldKind::Count);
-            let has_tag_on_fold_count = parent_component.vertices.values().any(|vertex| {
-                vertex.filters.iter().any(|filter| {
-                    let Some(Argument::Tag(FieldRef::FoldSpecificField(tagged_fold_count))) =
-                        filter.right()
-                    else {
-                        return false;
-                    };
+    let min_fold_size = if let Some(min_fold_size) =
+        get_min_fold_count_limit(carrier, fold.as_ref())
+    {
+        // Outputs anywhere inside the fold, including inside nested folds, observe its elements.
+        let no_outputs_in_fold = !component_has_outputs(&fold.component);
+        let has_output_on_fold_count =
+            fold.fold_specific_outputs.values().any(|x| *x == FoldSpecificFieldKind::Count);
 
-                    tagged_fold_count.fold_root_vid == fold.to_vid
-                        && tagged_fold_count.fold_eid == fold.eid
-                        && tagged_fold_count.kind == FoldSpecificFieldKind::Count
+        // The fold's count may be tagged and used by a later vertex of the parent component,
+        // inside another fold of the parent component (which then imports the tag),
+        // or in another fold's count filter.
+        let is_tag_on_this_fold_count = |argument: Option<&Argument>| {
+            let Some(Argument::Tag(FieldRef::FoldSpecificField(tagged_fold_count))) = argument
+            else {
+                return false;
+            };
+
+            tagged_fold_count.fold_root_vid == fold.to_vid
+                && tagged_fold_count.fold_eid == fold.eid
+                && tagged_fold_count.kind == FoldSpecificFieldKind::Count
+        };
+        let has_tag_on_fold_count = parent_component.vertices.values().any(|vertex| {
+            vertex.filters.iter().any(|filter| is_tag_on_this_fold_count(filter.right()))
+        }) || parent_component.folds.values().any(|other_fold| {
+            other_fold.post_filters.iter().any(|filter| is_tag_on_this_fold_count(filter.right()))
+                || other_fold.imported_tags.iter().any(|imported| {
+                    matches!(
+                        imported,
+                        FieldRef::FoldSpecificField(f)
+                            if f.fold_root_vid == fold.to_vid
+                                && f.fold_eid == fold.eid
+                                && f.kind == FoldSpecificFieldKind::Count
+                    )
                 })
-            });
+        });
 
-            if no_outputs_in_fold && !has_output_on_fold_count && !has_tag_on_fold_count {
-                Some(min_fold_size)
-            } else {
-                None
-            }
+        if no_outputs_in_fold && !has_output_on_fold_count && !has_tag_on_fold_count {
+            Some(min_fold_size)
         } else {
             None
-        };
+        }
+    } else {
+        None
+    };
 
     let moved_fold = fold.clone();
     let folded_iterator = edge_iterator.filter_map(move |(mut context, neighbors)| {
